@@ -1,5 +1,6 @@
 """Event log shared by the crash wrapper and the task body (never traced: no kill point inside)."""
 import os
+import time
 
 _FD = None
 
@@ -20,3 +21,10 @@ def mark(counter_path, letter, event):
     os.write(fd, letter.encode())
     os.close(fd)
     emit(event)
+    # double launches: the body of the first process stays here (not a traced line, no kill point) until the
+    # driver opens the latch
+    hold = os.environ.get("VPK_C10_HOLD")
+    if hold and letter == "B":
+        t0 = time.time()
+        while not os.path.exists(hold) and time.time() - t0 < 120:
+            time.sleep(0.005)
